@@ -285,3 +285,9 @@ def extra_path_to_root(eng, tier, seed):
 
 
 EXTRA_CHECKS = list(globals().get("EXTRA_CHECKS", [])) + [extra_path_to_root]
+
+
+# ------------------------------------------------------------------------------------------------ bounded: spelling probe
+from .fsprobe import extra_spelling_probe  # noqa: E402  (shared with C10)
+
+EXTRA_CHECKS = EXTRA_CHECKS + [extra_spelling_probe]
